@@ -984,4 +984,515 @@ theorem from_local_classifies' (z : Zone) (ℓ : Int) (hrule : z.rule = none) (h
   intro t
   rw [offAt_table_stepOff z t hrule hs]
 
+/-! ### table followed by a footer rule: the composed wall-clock statement -/
+
+theorem wallStart_eq (a : Alt) (y : Int) : wallStart a y = startAt a y + a.std.off := by
+  unfold wallStart startAt; omega
+theorem wallEnd_eq (a : Alt) (y : Int) : wallEnd a y = endAt a y + a.dst.off := by
+  unfold wallEnd endAt; omega
+
+/-- the rule's global step function -/
+def ruleG (a : Alt) (t : Int) : Int := (ruleOff (.alt a) t).off
+
+theorem ruleG_eq (a : Alt) (t Y : Int) (h : IsYearOf (t / 86400) Y) :
+    ruleG a t = (if ruleDstIn a Y t then a.dst else a.std).off := by
+  unfold ruleG ruleOff ruleDst
+  rw [isYearOf_unique _ _ _ (yearOf_spec (t / 86400)) h]
+
+theorem isYearOf_of_bounds (t Y : Int) (h1 : daysBeforeYear Y * 86400 ≤ t)
+    (h2 : t < daysBeforeYear (Y + 1) * 86400) : IsYearOf (t / 86400) Y := by
+  unfold IsYearOf; constructor <;> omega
+
+theorem bounds_of_isYearOf (t Y : Int) (h : IsYearOf (t / 86400) Y) :
+    daysBeforeYear Y * 86400 ≤ t ∧ t < daysBeforeYear (Y + 1) * 86400 := by
+  unfold IsYearOf at h; constructor <;> omega
+
+/-- no rule transition in `(u, v]`, `v` in the year of `u` or the next: the rule prescribes the same type -/
+theorem rule_const (a : Alt) (hy : RuleYearly a) (u v yu yv : Int)
+    (hu : IsYearOf (u / 86400) yu) (hv : IsYearOf (v / 86400) yv) (huv : u ≤ v)
+    (hyy : yv = yu ∨ yv = yu + 1)
+    (h1 : ¬ (u < startAt a yu ∧ startAt a yu ≤ v)) (h2 : ¬ (u < endAt a yu ∧ endAt a yu ≤ v))
+    (h3 : ¬ (u < startAt a yv ∧ startAt a yv ≤ v)) (h4 : ¬ (u < endAt a yv ∧ endAt a yv ≤ v)) :
+    ruleDstIn a yu u = ruleDstIn a yv v := by
+  have bu := bounds_of_isYearOf u yu hu
+  have bv := bounds_of_isYearOf v yv hv
+  rcases hyy with e | e
+  · subst e
+    unfold ruleDstIn
+    by_cases c : startAt a yv ≤ endAt a yv
+    · simp only [c, if_true]
+      by_cases d : startAt a yv ≤ u ∧ u < endAt a yv
+      · have d' : startAt a yv ≤ v ∧ v < endAt a yv := by omega
+        simp [d, d']
+      · have d' : ¬ (startAt a yv ≤ v ∧ v < endAt a yv) := by omega
+        simp [d, d']
+    · simp only [c, if_false]
+      by_cases d : endAt a yv ≤ u ∧ u < startAt a yv
+      · have d' : endAt a yv ≤ v ∧ v < startAt a yv := by omega
+        simp [d, d']
+      · have d' : ¬ (endAt a yv ≤ v ∧ v < startAt a yv) := by omega
+        simp [d, d']
+  · subst e
+    have r0 := hy yu
+    have r1 := hy (yu + 1)
+    unfold inYear at r0 r1
+    have sh := r0.2.2.2.2.2.2.1
+    unfold ruleDstIn
+    by_cases c : startAt a yu ≤ endAt a yu
+    · have c' : startAt a (yu + 1) ≤ endAt a (yu + 1) := sh.mp c
+      simp only [c, c', if_true]
+      have d : ¬ (startAt a yu ≤ u ∧ u < endAt a yu) := by omega
+      have d' : ¬ (startAt a (yu + 1) ≤ v ∧ v < endAt a (yu + 1)) := by omega
+      simp [d, d']
+    · have c' : ¬ startAt a (yu + 1) ≤ endAt a (yu + 1) := fun h => c (sh.mpr h)
+      simp only [c, c', if_false]
+      have d : ¬ (endAt a yu ≤ u ∧ u < startAt a yu) := by omega
+      have d' : ¬ (endAt a (yu + 1) ≤ v ∧ v < startAt a (yu + 1)) := by omega
+      simp [d, d']
+
+/-- a candidate instant `ℓ - o` of a reading in year `Y` is judged alike by its own year's rule and by year `Y`'s -/
+theorem rule_year_shift (a : Alt) (hy : RuleYearly a) (ℓ Y o : Int) (hℓ : IsYearOf (ℓ / 86400) Y)
+    (ho : o = a.std.off ∨ o = a.dst.off) :
+    ruleG a (ℓ - o) = (if ruleDstIn a Y (ℓ - o) then a.dst else a.std).off := by
+  have bl := bounds_of_isYearOf ℓ Y hℓ
+  have r0 := hy Y
+  have rm := hy (Y - 1)
+  have rp := hy (Y + 1)
+  have em : Y - 1 + 1 = Y := by omega
+  unfold inYear at r0 rm rp
+  rw [em] at rm
+  by_cases c1 : ℓ - o < daysBeforeYear Y * 86400
+  · -- the instant lies in year Y - 1, after both of its transitions
+    have hyr : IsYearOf ((ℓ - o) / 86400) (Y - 1) := by
+      apply isYearOf_of_bounds
+      · rcases ho with e | e <;> subst e <;> omega
+      · rw [em]; exact c1
+    rw [ruleG_eq a _ _ hyr]
+    have := rule_const a hy (ℓ - o) (ℓ - o) (Y - 1) (Y - 1) hyr hyr (by omega) (Or.inl rfl)
+      (by omega) (by omega) (by omega) (by omega)
+    -- compare end-of-year state of Y-1 with begin-of-year state of Y
+    have sh := rm.2.2.2.2.2.2.1
+    unfold ruleDstIn
+    by_cases c : startAt a (Y - 1) ≤ endAt a (Y - 1)
+    · have c' := sh.mp c
+      simp only [c, c', if_true]
+      have d : ¬ (startAt a (Y - 1) ≤ ℓ - o ∧ ℓ - o < endAt a (Y - 1)) := by
+        rcases ho with e | e <;> subst e <;> omega
+      have d' : ¬ (startAt a Y ≤ ℓ - o ∧ ℓ - o < endAt a Y) := by omega
+      simp [d, d']
+    · have c' : ¬ startAt a Y ≤ endAt a Y := fun h => c (sh.mpr h)
+      simp only [c, c', if_false]
+      have d : ¬ (endAt a (Y - 1) ≤ ℓ - o ∧ ℓ - o < startAt a (Y - 1)) := by
+        rcases ho with e | e <;> subst e <;> omega
+      have d' : ¬ (endAt a Y ≤ ℓ - o ∧ ℓ - o < startAt a Y) := by omega
+      simp [d, d']
+  · by_cases c2 : ℓ - o < daysBeforeYear (Y + 1) * 86400
+    · exact ruleG_eq a _ _ (isYearOf_of_bounds _ _ (by omega) c2)
+    · -- the instant lies in year Y + 1, before both of its transitions
+      have hyr : IsYearOf ((ℓ - o) / 86400) (Y + 1) := by
+        apply isYearOf_of_bounds
+        · omega
+        · rcases ho with e | e <;> subst e <;> omega
+      rw [ruleG_eq a _ _ hyr]
+      have sh := r0.2.2.2.2.2.2.1
+      unfold ruleDstIn
+      by_cases c : startAt a Y ≤ endAt a Y
+      · have c' := sh.mp c
+        simp only [c, c', if_true]
+        have d : ¬ (startAt a Y ≤ ℓ - o ∧ ℓ - o < endAt a Y) := by omega
+        have d' : ¬ (startAt a (Y + 1) ≤ ℓ - o ∧ ℓ - o < endAt a (Y + 1)) := by
+          rcases ho with e | e <;> subst e <;> omega
+        simp [d, d']
+      · have c' : ¬ startAt a (Y + 1) ≤ endAt a (Y + 1) := fun h => c (sh.mpr h)
+        simp only [c, c', if_false]
+        have d : ¬ (endAt a Y ≤ ℓ - o ∧ ℓ - o < startAt a Y) := by omega
+        have d' : ¬ (endAt a (Y + 1) ≤ ℓ - o ∧ ℓ - o < startAt a (Y + 1)) := by
+          rcases ho with e | e <;> subst e <;> omega
+        simp [d, d']
+
+theorem ruleG_mem (a : Alt) (t : Int) : ruleG a t = a.std.off ∨ ruleG a t = a.dst.off := by
+  unfold ruleG ruleOff; dsimp only; split
+  · exact Or.inr rfl
+  · exact Or.inl rfl
+
+theorem yearOff_mem (a : Alt) (S E t : Int) : yearOff a S E t = a.std.off ∨ yearOff a S E t = a.dst.off := by
+  unfold yearOff; split <;> split <;> simp
+
+theorem naiveYear_spec (ℓ : Int) (h : -36028797018963968 ≤ ℓ ∧ ℓ ≤ 36028797018963968) :
+    IsYearOf (ℓ / 86400) (naiveYear ℓ) := by
+  obtain ⟨dt, hdt, hY, _⟩ := from_timespec_ok' ℓ h
+  unfold naiveYear; rw [hdt]; exact hY
+
+/-- lookup by wall clock under a rule against the rule's GLOBAL step function (all years) -/
+theorem rule_from_local_global (a : Alt) (hvS : ValidDay a.dstStart) (hvE : ValidDay a.dstEnd)
+    (hy : RuleYearly a) (ℓ : Int) (hr : -36028797018963968 ≤ ℓ ∧ ℓ ≤ 36028797018963968)
+    (hS : ℓ ≠ wallStart a (naiveYear ℓ)) (hE : ℓ ≠ wallEnd a (naiveYear ℓ)) :
+    Classifies (ruleG a) ℓ (a.find_local_time_type_from_local (naiveYear ℓ) ℓ) := by
+  have hY := naiveYear_spec ℓ hr
+  generalize naiveYear ℓ = Y at *
+  have hsep : RuleSeparated a (wallStart a Y) (wallEnd a Y) := by
+    rw [wallStart_eq, wallEnd_eq]; exact (hy Y).2.2.2.2.2.2.2
+  apply classifies_congr _ (yearOff a (wallStart a Y) (wallEnd a Y)) ℓ _ _
+    (rule_from_local_classifies' a hvS hvE Y ℓ hsep hS hE)
+  have key : ∀ o, (o = a.std.off ∨ o = a.dst.off) →
+      ruleG a (ℓ - o) = yearOff a (wallStart a Y) (wallEnd a Y) (ℓ - o) := by
+    intro o ho
+    rw [rule_year_shift a hy ℓ Y o hY ho, yearOff_eq a Y (ℓ - o) hsep]
+  intro t
+  constructor
+  · intro h
+    have e : t = ℓ - ruleG a t := by omega
+    have k := key (ruleG a t) (ruleG_mem a t)
+    rw [← e] at k
+    omega
+  · intro h
+    have e : t = ℓ - yearOff a (wallStart a Y) (wallEnd a Y) t := by omega
+    have k := key _ (yearOff_mem a (wallStart a Y) (wallEnd a Y) t)
+    rw [← e] at k
+    omega
+
+theorem head_le_hiLast (z : Zone) (ts : List Transition) : ∀ (p : Int) (lo : Option Int),
+    sepFrom z ts p lo = true → ∀ tr rest, ts = tr :: rest →
+    tr.time + max p (typeAt z tr.idx).off ≤ hiLast z p ts := by
+  induction ts with
+  | nil => intro p lo _ tr rest h; cases h
+  | cons x xs ih =>
+    intro p lo hsep tr rest heq
+    cases heq
+    cases xs with
+    | nil => simp [hiLast]
+    | cons x2 xs2 =>
+      unfold sepFrom at hsep
+      simp only [Bool.and_eq_true] at hsep
+      have h2 := ih (typeAt z x.idx).off _ hsep.2 x2 xs2 rfl
+      have hsep2 := hsep.2
+      unfold sepFrom at hsep2
+      simp only [Bool.and_eq_true, decide_eq_true_eq] at hsep2
+      simp only [hiLast]
+      omega
+
+theorem hiLast_ge (z : Zone) (ts : List Transition) : ∀ (p : Int) (last : Transition),
+    ts.getLast? = some last → last.time + (typeAt z last.idx).off ≤ hiLast z p ts := by
+  induction ts with
+  | nil => intro p last h; cases h
+  | cons x xs ih =>
+    intro p last h
+    cases xs with
+    | nil =>
+      simp at h; subst h; simp only [hiLast]; omega
+    | cons x2 xs2 =>
+      simp only [hiLast]
+      apply ih
+      simpa [List.getLast?_cons_cons] using h
+
+theorem stepOff_after (z : Zone) (ts : List Transition) : ∀ (p : Int) (last : Transition),
+    Sorted ts → ts.getLast? = some last → ∀ t, last.time ≤ t →
+    stepOff z p ts t = (typeAt z last.idx).off := by
+  induction ts with
+  | nil => intro p last _ h; cases h
+  | cons x xs ih =>
+    intro p last hs h t ht
+    have hx := sorted_le_last (x :: xs) last hs h x (List.mem_cons_self ..)
+    have c : x.time ≤ t := by omega
+    simp only [stepOff, c, if_true]
+    cases xs with
+    | nil => simp at h; subst h; simp [stepOff]
+    | cons x2 xs2 =>
+      apply ih _ _ (List.pairwise_cons.mp hs).2 _ t ht
+      simpa [List.getLast?_cons_cons] using h
+
+theorem stepOff_before (z : Zone) (ts : List Transition) : ∀ (p : Int) (lo : Option Int) (last : Transition),
+    Sorted ts → sepFrom z ts p lo = true → ts.getLast? = some last → ∀ t, t < last.time →
+    t + stepOff z p ts t ≤ hiLast z p ts := by
+  induction ts with
+  | nil => intro p lo last _ _ h; cases h
+  | cons x xs ih =>
+    intro p lo last hs hsep h t ht
+    have hhead := head_le_hiLast z (x :: xs) p lo hsep x xs rfl
+    by_cases c : x.time ≤ t
+    · simp only [stepOff, c, if_true]
+      cases xs with
+      | nil => simp at h; subst h; omega
+      | cons x2 xs2 =>
+        unfold sepFrom at hsep
+        simp only [Bool.and_eq_true] at hsep
+        have := ih (typeAt z x.idx).off _ last (List.pairwise_cons.mp hs).2 hsep.2
+          (by simpa [List.getLast?_cons_cons] using h) t ht
+        simpa [hiLast] using this
+    · simp only [stepOff, c, if_false]; omega
+
+theorem one_ret (z : Zone) (tr : Transition) (prev : Ltt) (ℓ : Int)
+    (hT : -4611686018427387904 ≤ tr.time ∧ tr.time ≤ 4611686018427387904)
+    (hp : -2147483648 ≤ prev.off ∧ prev.off ≤ 2147483647)
+    (ha : -2147483648 ≤ (typeAt z tr.idx).off ∧ (typeAt z tr.idx).off ≤ 2147483647)
+    (h : ℓ ≤ tr.time + max prev.off (typeAt z tr.idx).off) :
+    ∃ m, fromLocalLoop z [tr] prev ℓ = .ret m := by
+  unfold fromLocalLoop fromLocalLoop
+  have s1 : satI64 (tr.time + (typeAt z tr.idx).off) = tr.time + (typeAt z tr.idx).off :=
+    satI64_id (by omega) (by omega)
+  have s2 : satI64 (tr.time + prev.off) = tr.time + prev.off :=
+    satI64_id (by omega) (by omega)
+  dsimp only
+  simp only [s1, s2]
+  generalize (typeAt z tr.idx) = after at *
+  (repeat' split) <;> first | exact ⟨_, rfl⟩ | omega
+
+/-- what the loop returns on a non-empty separated table: an early result exactly when `ℓ` is not
+beyond the last window, otherwise the type of the last transition -/
+theorem loop_out (z : Zone) (ℓ : Int) (ts : List Transition) : ∀ (prev : Ltt) (lo : Option Int) (last : Transition),
+    sepFrom z ts prev.off lo = true → InRange z ts → (-2147483648 ≤ prev.off ∧ prev.off ≤ 2147483647) →
+    ts.getLast? = some last →
+    ((∃ m, fromLocalLoop z ts prev ℓ = .ret m ∧ ℓ ≤ hiLast z prev.off ts) ∨
+     (fromLocalLoop z ts prev ℓ = .fell (typeAt z last.idx) ∧ hiLast z prev.off ts < ℓ)) := by
+  induction ts with
+  | nil => intro prev lo last _ _ _ h; cases h
+  | cons tr rest ih =>
+    intro prev lo last hsep hr hp hl
+    have hT := hr.2 tr (List.mem_cons_self ..)
+    have ha := hr.1 tr.idx
+    have hhead := head_le_hiLast z (tr :: rest) prev.off lo hsep tr rest rfl
+    by_cases c : ℓ ≤ tr.time + max prev.off (typeAt z tr.idx).off
+    · left
+      obtain ⟨m, hm⟩ := one_ret z tr prev ℓ hT hp ha c
+      exact ⟨m, by rw [loop_cons_ret z tr rest prev ℓ hT hp ha c, hm], by omega⟩
+    · have c' : tr.time + max prev.off (typeAt z tr.idx).off < ℓ := by omega
+      rw [loop_cons_cont z tr rest prev ℓ hT hp ha c']
+      cases rest with
+      | nil =>
+        right
+        simp at hl; subst hl
+        exact ⟨by simp [fromLocalLoop], by simpa [hiLast] using c'⟩
+      | cons x2 xs2 =>
+        unfold sepFrom at hsep
+        simp only [Bool.and_eq_true] at hsep
+        have hr' : InRange z (x2 :: xs2) := ⟨hr.1, fun x hx' => hr.2 x (List.mem_cons_of_mem _ hx')⟩
+        have := ih (typeAt z tr.idx) _ last hsep.2 hr' ha (by simpa [List.getLast?_cons_cons] using hl)
+        simpa [hiLast] using this
+
+/-- generic composition: a separated table followed by a step function `G` in force from the last
+transition on, whose wall-clock lookup `R` is exact beyond the last window -/
+theorem compose (z : Zone) (ℓ : Int) (G : Int → Int) (R : Mapped Ltt) (last : Transition)
+    (hl : z.transitions.getLast? = some last) (hs : Sorted z.transitions) (hsep : WellSeparated z)
+    (hnb : NoBoundary z (typeAt z 0).off z.transitions ℓ) (hr : InRange z z.transitions)
+    (J1 : ∀ t, last.time ≤ t → G t = (typeAt z last.idx).off ∨
+      (hiLast z (typeAt z 0).off z.transitions < t + G t ∧
+       hiLast z (typeAt z 0).off z.transitions < t + (typeAt z last.idx).off))
+    (J2 : ∀ t, t < last.time → G t = (typeAt z last.idx).off ∨
+      t + G t ≤ hiLast z (typeAt z 0).off z.transitions)
+    (HR : hiLast z (typeAt z 0).off z.transitions < ℓ → Classifies G ℓ R) :
+    Classifies (fun t => if last.time ≤ t then G t else stepOff z (typeAt z 0).off z.transitions t) ℓ
+      (match fromLocalLoop z z.transitions (typeAt z 0) ℓ with
+       | .ret m => m
+       | .fell _ => R) := by
+  have hp := hr.1 0
+  have hge := hiLast_ge z z.transitions (typeAt z 0).off last hl
+  rcases loop_out z ℓ z.transitions (typeAt z 0) none last hsep hr hp hl with ⟨m, hm, hle⟩ | ⟨hf, hgt⟩
+  · rw [hm]
+    have hc := loop_classifies z ℓ z.transitions (typeAt z 0) none hs hsep hnb hr hp
+    rw [hm] at hc
+    simp only [outMap] at hc
+    apply classifies_congr _ _ ℓ _ _ hc
+    intro t
+    by_cases c : last.time ≤ t
+    · simp only [c, if_true]
+      rw [stepOff_after z z.transitions _ last hs hl t c]
+      rcases J1 t c with h | h
+      · rw [h]
+      · constructor <;> intro hh <;> omega
+    · simp only [c, if_false]
+  · rw [hf]
+    apply classifies_congr _ _ ℓ _ _ (HR hgt)
+    intro t
+    by_cases c : last.time ≤ t
+    · simp only [c, if_true]
+    · simp only [c, if_false]
+      have hb := stepOff_before z z.transitions _ none last hs hsep hl t (by omega)
+      rcases J2 t (by omega) with h | h
+      · rw [h]; constructor <;> intro hh <;> omega
+      · constructor <;> intro hh <;> omega
+
+theorem offAt_with_rule (z : Zone) (r : Rule) (last : Transition) (t : Int) (hrule : z.rule = some r)
+    (hl : z.transitions.getLast? = some last) (hs : Sorted z.transitions) :
+    offAt z t = (if last.time ≤ t then (ruleOff r t).off else stepOff z (typeAt z 0).off z.transitions t) := by
+  rw [stepOff_eq z _ _ t hs]
+  unfold offAt ltAt afterLast tableAt
+  rw [hrule, hl]
+  by_cases c : last.time ≤ t
+  · simp [c]
+  · simp only [c, decide_false, Bool.false_eq_true, if_false]
+    cases (z.transitions.filter (fun tr => decide (tr.time ≤ t))).getLast? <;> rfl
+
+theorem from_local_with_rule (z : Zone) (r : Rule) (last : Transition) (ℓ : Int) (hrule : z.rule = some r)
+    (hl : z.transitions.getLast? = some last) :
+    z.find_local_time_type_from_local ℓ =
+      (match fromLocalLoop z z.transitions (typeAt z 0) ℓ with
+       | .ret m => m
+       | .fell _ => r.find_local_time_type_from_local (naiveYear ℓ) ℓ) := by
+  unfold Zone.find_local_time_type_from_local
+  rw [hrule]
+  have : z.transitions.isEmpty = false := by
+    cases h : z.transitions with
+    | nil => rw [h] at hl; cases hl
+    | cons _ _ => rfl
+  rw [this]
+  dsimp only
+  simp only [Bool.false_eq_true, if_false]
+  cases fromLocalLoop z z.transitions (typeAt z 0) ℓ <;> rfl
+
+/-- `joinSeparatedB` unpacked for an alternate-time rule -/
+theorem join_alt (z : Zone) (a : Alt) (last : Transition) (hrule : z.rule = some (.alt a))
+    (hl : z.transitions.getLast? = some last) (hj : JoinSeparated z) :
+    ruleG a last.time = (typeAt z last.idx).off ∧
+    ∀ y, (y = yearOf (last.time / 86400) - 1 ∨ y = yearOf (last.time / 86400) ∨ y = yearOf (last.time / 86400) + 1) →
+      ∀ X, (X = startAt a y ∨ X = endAt a y) →
+        (X ≤ last.time ∧ X + max a.std.off a.dst.off ≤ hiLast z (typeAt z 0).off z.transitions) ∨
+        (last.time < X ∧ hiLast z (typeAt z 0).off z.transitions < X + min a.std.off a.dst.off) := by
+  unfold JoinSeparated joinSeparatedB at hj
+  rw [hrule, hl] at hj
+  simp only [Bool.and_eq_true, decide_eq_true_eq, List.all_cons, List.all_nil, Bool.and_true,
+    Bool.or_eq_true] at hj
+  refine ⟨hj.1, ?_⟩
+  intro y hy X hX
+  rcases hy with e | e | e <;> subst e <;> rcases hX with e | e <;> subst e
+  · exact hj.2.1.1
+  · exact hj.2.1.2
+  · exact hj.2.2.1.1
+  · exact hj.2.2.1.2
+  · exact hj.2.2.2.1
+  · exact hj.2.2.2.2
+
+theorem join_J1 (z : Zone) (a : Alt) (last : Transition) (hrule : z.rule = some (.alt a))
+    (hl : z.transitions.getLast? = some last) (hj : JoinSeparated z) (hy : RuleYearly a) :
+    ∀ t, last.time ≤ t → ruleG a t = (typeAt z last.idx).off ∨
+      (hiLast z (typeAt z 0).off z.transitions < t + ruleG a t ∧
+       hiLast z (typeAt z 0).off z.transitions < t + (typeAt z last.idx).off) := by
+  intro t ht
+  obtain ⟨hc, hX⟩ := join_alt z a last hrule hl hj
+  generalize hiLast z (typeAt z 0).off z.transitions = hi at *
+  generalize (typeAt z last.idx).off = aL at *
+  have hY0 := yearOf_spec (last.time / 86400)
+  generalize yearOf (last.time / 86400) = y0 at *
+  generalize last.time = T at *
+  have bT := bounds_of_isYearOf T y0 hY0
+  have m1 := ruleG_mem a t
+  have m2 := ruleG_mem a T
+  have x1 := hX y0 (Or.inr (Or.inl rfl)) _ (Or.inl rfl)
+  have x2 := hX y0 (Or.inr (Or.inl rfl)) _ (Or.inr rfl)
+  have x3 := hX (y0 + 1) (Or.inr (Or.inr rfl)) _ (Or.inl rfl)
+  have x4 := hX (y0 + 1) (Or.inr (Or.inr rfl)) _ (Or.inr rfl)
+  have r0 := hy y0
+  have r1 := hy (y0 + 1)
+  unfold inYear at r0 r1
+  by_cases cA : (T < startAt a y0 ∧ startAt a y0 ≤ t) ∨ (T < endAt a y0 ∧ endAt a y0 ≤ t) ∨
+      (T < startAt a (y0 + 1) ∧ startAt a (y0 + 1) ≤ t) ∨ (T < endAt a (y0 + 1) ∧ endAt a (y0 + 1) ≤ t)
+  · right
+    rcases cA with h | h | h | h <;> constructor <;> omega
+  · left
+    have n1 : ¬ (T < startAt a y0 ∧ startAt a y0 ≤ t) := fun h => cA (Or.inl h)
+    have n2 : ¬ (T < endAt a y0 ∧ endAt a y0 ≤ t) := fun h => cA (Or.inr (Or.inl h))
+    have n3 : ¬ (T < startAt a (y0 + 1) ∧ startAt a (y0 + 1) ≤ t) := fun h => cA (Or.inr (Or.inr (Or.inl h)))
+    have n4 : ¬ (T < endAt a (y0 + 1) ∧ endAt a (y0 + 1) ≤ t) := fun h => cA (Or.inr (Or.inr (Or.inr h)))
+    have hlt : t < daysBeforeYear (y0 + 1 + 1) * 86400 := by omega
+    by_cases cy : t < daysBeforeYear (y0 + 1) * 86400
+    · have hyt := isYearOf_of_bounds t y0 (by omega) cy
+      have := rule_const a hy T t y0 y0 hY0 hyt ht (Or.inl rfl) n1 n2 n1 n2
+      rw [ruleG_eq a t y0 hyt, ← this, ← ruleG_eq a T y0 hY0]; exact hc
+    · have hyt := isYearOf_of_bounds t (y0 + 1) (by omega) hlt
+      have := rule_const a hy T t y0 (y0 + 1) hY0 hyt ht (Or.inr rfl) n1 n2 n3 n4
+      rw [ruleG_eq a t (y0 + 1) hyt, ← this, ← ruleG_eq a T y0 hY0]; exact hc
+
+theorem join_J2 (z : Zone) (a : Alt) (last : Transition) (hrule : z.rule = some (.alt a))
+    (hl : z.transitions.getLast? = some last) (hj : JoinSeparated z) (hy : RuleYearly a) :
+    ∀ t, t < last.time → ruleG a t = (typeAt z last.idx).off ∨
+      t + ruleG a t ≤ hiLast z (typeAt z 0).off z.transitions := by
+  intro t ht
+  obtain ⟨hc, hX⟩ := join_alt z a last hrule hl hj
+  generalize hiLast z (typeAt z 0).off z.transitions = hi at *
+  generalize (typeAt z last.idx).off = aL at *
+  have hY0 := yearOf_spec (last.time / 86400)
+  generalize yearOf (last.time / 86400) = y0 at *
+  generalize last.time = T at *
+  have bT := bounds_of_isYearOf T y0 hY0
+  have m1 := ruleG_mem a t
+  have x1 := hX y0 (Or.inr (Or.inl rfl)) _ (Or.inl rfl)
+  have x2 := hX y0 (Or.inr (Or.inl rfl)) _ (Or.inr rfl)
+  have x3 := hX (y0 - 1) (Or.inl rfl) _ (Or.inl rfl)
+  have x4 := hX (y0 - 1) (Or.inl rfl) _ (Or.inr rfl)
+  have r0 := hy y0
+  have rm := hy (y0 - 1)
+  have em : y0 - 1 + 1 = y0 := by omega
+  unfold inYear at r0 rm
+  rw [em] at rm
+  by_cases cA : (t < startAt a y0 ∧ startAt a y0 ≤ T) ∨ (t < endAt a y0 ∧ endAt a y0 ≤ T) ∨
+      (t < startAt a (y0 - 1) ∧ startAt a (y0 - 1) ≤ T) ∨ (t < endAt a (y0 - 1) ∧ endAt a (y0 - 1) ≤ T)
+  · right
+    rcases cA with h | h | h | h <;> omega
+  · left
+    have n1 : ¬ (t < startAt a y0 ∧ startAt a y0 ≤ T) := fun h => cA (Or.inl h)
+    have n2 : ¬ (t < endAt a y0 ∧ endAt a y0 ≤ T) := fun h => cA (Or.inr (Or.inl h))
+    have n3 : ¬ (t < startAt a (y0 - 1) ∧ startAt a (y0 - 1) ≤ T) := fun h => cA (Or.inr (Or.inr (Or.inl h)))
+    have n4 : ¬ (t < endAt a (y0 - 1) ∧ endAt a (y0 - 1) ≤ T) := fun h => cA (Or.inr (Or.inr (Or.inr h)))
+    have hge : daysBeforeYear (y0 - 1) * 86400 ≤ t := by omega
+    by_cases cy : daysBeforeYear y0 * 86400 ≤ t
+    · have hyt := isYearOf_of_bounds t y0 cy (by omega)
+      have := rule_const a hy t T y0 y0 hyt hY0 (by omega) (Or.inl rfl) n1 n2 n1 n2
+      rw [ruleG_eq a t y0 hyt, this, ← ruleG_eq a T y0 hY0]; exact hc
+    · have hyt := isYearOf_of_bounds t (y0 - 1) hge (by rw [em]; omega)
+      have := rule_const a hy t T (y0 - 1) y0 hyt hY0 (by omega) (Or.inr (by omega)) n3 n4 n1 n2
+      rw [ruleG_eq a t (y0 - 1) hyt, this, ← ruleG_eq a T y0 hY0]; exact hc
+
+/-- table + alternate-time footer rule -/
+theorem composed_alt' (z : Zone) (a : Alt) (last : Transition) (ℓ : Int)
+    (hrule : z.rule = some (.alt a)) (hl : z.transitions.getLast? = some last)
+    (hs : Sorted z.transitions) (hsep : WellSeparated z) (hj : JoinSeparated z)
+    (hvS : ValidDay a.dstStart) (hvE : ValidDay a.dstEnd) (hy : RuleYearly a)
+    (hnb : NoBoundary z (typeAt z 0).off z.transitions ℓ)
+    (hS : ℓ ≠ wallStart a (naiveYear ℓ)) (hE : ℓ ≠ wallEnd a (naiveYear ℓ))
+    (hr : InRange z z.transitions) (hℓ : -36028797018963968 ≤ ℓ ∧ ℓ ≤ 36028797018963968) :
+    Classifies (offAt z) ℓ (z.find_local_time_type_from_local ℓ) := by
+  rw [from_local_with_rule z (.alt a) last ℓ hrule hl]
+  have hc := compose z ℓ (ruleG a) (a.find_local_time_type_from_local (naiveYear ℓ) ℓ) last hl hs hsep hnb hr
+    (join_J1 z a last hrule hl hj hy) (join_J2 z a last hrule hl hj hy)
+    (fun _ => rule_from_local_global a hvS hvE hy ℓ hℓ hS hE)
+  apply classifies_congr _ _ ℓ _ _ hc
+  intro t
+  rw [offAt_with_rule z (.alt a) last t hrule hl hs]
+  rfl
+
+/-- table + fixed footer rule -/
+theorem composed_fixed' (z : Zone) (l : Ltt) (last : Transition) (ℓ : Int)
+    (hrule : z.rule = some (.fixed l)) (hl : z.transitions.getLast? = some last)
+    (hs : Sorted z.transitions) (hsep : WellSeparated z) (hj : JoinSeparated z)
+    (hnb : NoBoundary z (typeAt z 0).off z.transitions ℓ) (hr : InRange z z.transitions) :
+    Classifies (offAt z) ℓ (z.find_local_time_type_from_local ℓ) := by
+  have hjo : l.off = (typeAt z last.idx).off := by
+    unfold JoinSeparated joinSeparatedB at hj
+    rw [hrule, hl] at hj
+    simpa using hj
+  rw [from_local_with_rule z (.fixed l) last ℓ hrule hl]
+  have hc := compose z ℓ (fun _ => l.off) (.single l) last hl hs hsep hnb hr
+    (fun _ _ => Or.inl hjo) (fun _ _ => Or.inl hjo)
+    (fun _ => by simp only [Classifies]; intro t; omega)
+  apply classifies_congr _ _ ℓ _ _ hc
+  intro t
+  rw [offAt_with_rule z (.fixed l) last t hrule hl hs]
+  rfl
+
+/-- no table, alternate-time rule (a POSIX `TZ` value) -/
+theorem rule_only' (z : Zone) (a : Alt) (ℓ : Int) (hrule : z.rule = some (.alt a)) (ht : z.transitions = [])
+    (hvS : ValidDay a.dstStart) (hvE : ValidDay a.dstEnd) (hy : RuleYearly a)
+    (hS : ℓ ≠ wallStart a (naiveYear ℓ)) (hE : ℓ ≠ wallEnd a (naiveYear ℓ))
+    (hℓ : -36028797018963968 ≤ ℓ ∧ ℓ ≤ 36028797018963968) :
+    Classifies (offAt z) ℓ (z.find_local_time_type_from_local ℓ) := by
+  have e1 : z.find_local_time_type_from_local ℓ = a.find_local_time_type_from_local (naiveYear ℓ) ℓ := by
+    unfold Zone.find_local_time_type_from_local
+    rw [hrule, ht]; rfl
+  have e2 : ∀ t, offAt z t = ruleG a t := by
+    intro t
+    unfold offAt ltAt afterLast ruleG
+    rw [hrule, ht]; rfl
+  rw [e1]
+  apply classifies_congr _ _ ℓ _ _ (rule_from_local_global a hvS hvE hy ℓ hℓ hS hE)
+  intro t; rw [e2 t]
+
 end Chrono.Proofs.TzL
